@@ -51,30 +51,30 @@ Override(regkw, callkw) ==
   LET ck == { callkw[j][1] : j \in 1..Len(callkw) } IN
   { p \in AsSet(regkw) : p[1] \notin ck } \cup AsSet(callkw)
 
+Canon(cs) == LET p == Parse(cs) IN Format(p.name, StripZeros(p.digits))     \* the id under which (name, int(version)) is stored
+
 RegisterLaw(e) ==
   LET p == Parse(e.id_chars)  pre == AsSet(e.pre_ids)  post == AsSet(e.post_ids) IN
   IF ~p.ok THEN
     { <<"C18.malformed_registration_refused", e.outcome = "raise:ValueError" /\ post = pre /\ e.others_unchanged>> }
-  ELSE IF e.id \in pre THEN
+  ELSE IF Canon(e.id_chars) \in pre THEN
     { <<"C18.duplicate_refused_registry_unchanged", e.outcome = "raise:ValueError" /\ post = pre /\ e.others_unchanged>> }
   ELSE
-    { <<"C18.register_adds_exactly_one", e.outcome = "ok" /\ post = pre \cup {e.id} /\ e.others_unchanged
+    { <<"C18.register_adds_exactly_one", e.outcome = "ok" /\ post = pre \cup {Canon(e.id_chars)} /\ e.others_unchanged
                                           /\ e.new_entry = e.expected_entry>> }
 
 EntryClass == [P |-> "ProbeEnv", Q |-> "ProbeEnv2"]
 (* regs: what the SPECIFICATION knows was registered in this call sequence: id -> [entry, kwargs] (from the
    arguments of the successful register calls, never read back from the implementation's registry). *)
 MakeLaw(e, regs) ==
-  LET pre == AsSet(e.pre_ids) IN
+  LET pre == AsSet(e.pre_ids)  p == Parse(e.id_chars)  cid == Canon(e.id_chars) IN
   { <<"C18.make_leaves_registry_unchanged", AsSet(e.post_ids) = pre /\ e.entries_unchanged>> }
   \cup
-  (IF e.registered
-   THEN { <<"C18.make_class", e.outcome = "ok" /\ e.class = e.registered_entry
-                               /\ (e.id \in DOMAIN regs => e.class = EntryClass[regs[e.id].entry])>>,
+  (IF p.ok /\ cid \in pre
+   THEN { <<"C18.make_class", e.outcome = "ok" /\ (cid \in DOMAIN regs => e.class = EntryClass[regs[cid].entry])>>,
           <<"C18.make_kwargs_precedence",
-               AsSet(e.seen_kwargs) = Override(IF e.id \in DOMAIN regs THEN regs[e.id].kwargs ELSE e.registered_kwargs,
-                                              e.call_kwargs)>> }
-   ELSE { <<"C18.unknown_id_lists_registered", e.outcome = "raise:ValueError" /\ AsSet(e.listed_ids) = pre>> })
+               cid \in DOMAIN regs => AsSet(e.seen_kwargs) = Override(regs[cid].kwargs, e.call_kwargs)>> }
+   ELSE { <<"C18.unknown_id_lists_registered", e.outcome = "raise:ValueError" /\ (p.ok => AsSet(e.listed_ids) = pre)>> })
 
 ShippedLaw(e) ==
   IF e.needs_dataset /\ e.outcome # "ok" THEN {}     \* Sokoban-v0 needs its dataset (documented); offline sandbox
